@@ -279,9 +279,30 @@ def check(prog: Program, tier: str) -> Result:
     _is_blocking(prog, res, isb, kinds)
     _safe_callables(prog, res)
     _consumers(prog, res)
-    res.floors.update({"R16.1": 60, "R16.2": 25, "R16.3": 10, "R16.4": 2, "R16.5": 1, "R16.6": 3, "R16.7": 8, "R16.8": 5})
+    _analyser_purity(prog, res)
+    res.floors.update({"R16.1": 60, "R16.2": 25, "R16.3": 10, "R16.4": 2, "R16.5": 1, "R16.6": 3, "R16.7": 8, "R16.8": 5, "R16.9": 2})
     res.analysed.update({"ast_kinds": len(kinds)})
     return res
+
+
+def _analyser_purity(prog: Program, res: Result) -> None:
+    """R16.9: the answer for one statement must not change the answer for another one - the analysers do not mutate
+    what they are given (the whitelist of safe callables is shared by all statements of a module; the node is the
+    tree being analysed).  Decided with the mutation summaries of the ownership interpreter (sa/ownership.py)."""
+    from ..ownership import Ownership
+    own = Ownership(prog)
+    for mod, name in (("core", "has_side_effect"), ("core", "is_blocking")):
+        fn = prog.func(mod, name)
+        summ = own.summaries.get(fn.key)
+        if summ is None:
+            res.undecided("R16.9", fn.loc(), fn.fq, f"{name}: parameters left unmodified", "no summary")
+            continue
+        for prm in fn.all_params:
+            what = summ.mutates.get(prm)
+            res.decide(what is None, "R16.9", fn.loc(), fn.fq, f"{name}: parameter '{prm}' is left unmodified",
+                       "no statement of the analyser (or of a callee) mutates it" if what is None else
+                       f"the analyser modifies its argument in place ({what}): the collection is shared by the caller across statements, "
+                       "so a name judged safe while looking at one statement stays 'safe' for every later statement of the module")
 
 
 def _truthy_when(expr: ast.AST, assume: Dict[str, bool], default_calls: bool) -> Optional[bool]:
@@ -619,6 +640,12 @@ def _positive(test: ast.AST) -> bool:
 from ..selftest import Variant  # noqa: E402
 
 VARIANTS: List[Variant] = [
+    Variant("whitelist-extended-in-place", "FIRE", "core",
+            "            safe_callable_whitelist = safe_callable_whitelist | {node.func.attr}\n",
+            "            safe_callable_whitelist |= {node.func.attr}\n", "R16.9"),
+    Variant("whitelist-extended-by-union-call", "SILENT", "core",
+            "            safe_callable_whitelist = safe_callable_whitelist | {node.func.attr}\n",
+            "            safe_callable_whitelist = frozenset(safe_callable_whitelist).union({node.func.attr})\n"),
     Variant("if-forgets-orelse", "FIRE", "core",
             "            for item in itertools.chain(node.body, [node.test], node.orelse)\n", "            for item in itertools.chain(node.body, [node.test])\n", "R16.2", "ast.If"),
     Variant("for-forgets-orelse", "FIRE", "core",
